@@ -112,6 +112,14 @@ def run_connect(wire, plan, cap):
     s.push(wire)
     c = M.ms.Client("h", debug=zlib.crc32(wire) % 3 == 0)
     with contextlib.redirect_stdout(io.StringIO()):
+        if (zlib.crc32(wire) // 3) % 2 == 0:
+            # history of this very object: an earlier connection died in the middle of a long line (connect fails);
+            # the next connect() starts from scratch
+            s0 = M.FakeSocket(lambda w, sock: None)
+            s0.push(b'"IMPLEMENTATION" "old"\r\nNO "' + b"t" * 600)
+            s0.eof = True
+            with M.Patched([s0]):
+                M.call(c.connect, "user", "pass")
         return _run_connect(M, c, s)
 
 
@@ -378,6 +386,46 @@ def big_status_cases(prop, tier, seed):
     return n, recs
 
 
+RFC5804_CODES = [b"AUTH-TOO-WEAK", b"ENCRYPT-NEEDED", b"QUOTA", b"QUOTA/MAXSCRIPTS", b"QUOTA/MAXSIZE", b"REFERRAL \"sieve://x\"",
+                 b"SASL \"cnNwYXV0aD1h\"", b"TRANSITION-NEEDED", b"TRYLATER", b"ACTIVE", b"NONEXISTENT", b"ALREADYEXISTS",
+                 b"TAG \"t9\"", b"WARNINGS", b"X-VENDOR/CODE"]
+
+
+def coded_status_cases(prop, tier, seed):
+    """Every registered response code of RFC 5804 1.3 (plus a vendor one), with a quoted, a literal and no text, as the
+    final answer to an ordinary operation *and* to the AUTHENTICATE command of connect(): the same rule as for the corpus,
+    MSClient!RefStatus -- False / None, errcode = the code, errmsg = the server's text -- evaluated outside TLC."""
+    from . import ms_impl as M
+    recs, n = [], 0
+    for code in RFC5804_CODES:
+        for enc, text in (("q", b"refused by policy"), ("l", b"line 1\r\nline 2"), ("none", b"")):
+            tail = b' "' + text + b'"' if enc == "q" else (b" {%d}\r\n" % len(text) + text if enc == "l" else b"")
+            wire = b"NO (" + code + b")" + tail + b"\r\n"
+            o = [[], "no", list(code.split(b" ")[0]), list(text), False]
+            r = {"text": {"e": enc}, "st": "NO"}
+            base = run_case(wire, "deletescript", None, 0)
+            n += 1
+            if not match_status(o, base, "deletescript", r):
+                recs.append({"reply": "code %s" % code.decode(), "wire": repr(wire[:70]), "op": "deletescript", "schedule": "unsegmented",
+                             "obs": repr(base)[:300], "expl": None, "what": "result does not mirror the reply"})
+            # the same reply as the server's verdict on AUTHENTICATE
+            replies = [wire, SENT1, SENT2]
+
+            def server(w, sock):
+                return replies.pop(0) if replies else None
+            s = M.FakeSocket(server)
+            s.push(M.CAPS_PLAIN + b"OK\r\n")
+            c = M.ms.Client("h")
+            with contextlib.redirect_stdout(io.StringIO()), M.Patched([s]):
+                res = M.call(c.connect, "user", "pass")
+            n += 1
+            obs = {"res": res, "errcode": c.errcode, "errmsg": c.errmsg, "left": s.leftover(), "buf": M.private_buffer(c), "s1": ("ret", (None, ["z"])), "s2": ("ret", True)}
+            if not match_status(o, obs, "deletescript", r):
+                recs.append({"reply": "code %s" % code.decode(), "wire": repr(wire[:70]), "op": "connect", "schedule": "answer to AUTHENTICATE",
+                             "obs": repr(obs)[:300], "expl": None, "what": "result does not mirror the reply"})
+    return n, recs
+
+
 def run(prop, tier, seed):
     t0 = time.time()
     devs = findings.open_devs("MSClient")
@@ -419,6 +467,10 @@ def run(prop, tier, seed):
         recs.extend(rb)
     if prop in ("C05", "C09"):
         nb, rb = big_status_cases(prop, tier, seed)
+        n_exec += nb
+        recs.extend(rb)
+    if prop == "C09":
+        nb, rb = coded_status_cases(prop, tier, seed)
         n_exec += nb
         recs.extend(rb)
     known, viols = {}, []
